@@ -1,10 +1,11 @@
 (* Extract_io.v -- extraction of the file read/write model (C01, C03) to OCaml (ExtrOcamlBasic only). *)
 From Coq Require Import List NArith ZArith Extraction ExtrOcamlBasic.
-From NV Require Import Bytes GenConsts IoDefs IoLinkDefs IoTableDefs.
+From NV Require Import Bytes GenConsts IoDefs IoLinkDefs IoTableDefs IoAwDefs.
 Definition all_types : nat * N * Z := (0%nat, 0%N, 0%Z).
 Extraction "io_model.ml" all_types split_lines norm want slice lbuf_make lbuf_rd lbuf_edit ln ln_sz rd_sbuf
   sbuf_make sbuf_mem sbuf_chr sbuf_buf sb_n sb_sz lbuf_wr lbuf_wr_gen outp wsz ovf save_file read_then_write
   write_seq ftrunc BATCH
   write_fully write_all fs_get fs_set fs_mtime fs_content lbuf_save ec_write ec_quit quit_loop refuses
   lk_get resolve target mtime_of lbuf_save_l ec_edit_l ec_write_l quit_loop_l ec_quit_l foreign foreign_run
-  path_of_arg bufs_find bufs_switch bufs_push excuse_stamp ec_write_t ec_quit_t ec_edit_t.
+  path_of_arg bufs_find bufs_switch bufs_push excuse_stamp ec_write_t ec_quit_t ec_edit_t
+  bufs_modified bufs_modified_eager bufs_modified_kept step start run.
